@@ -389,14 +389,18 @@ var bubbleRe = regexp.MustCompile(`synctest bubble (\d+)`)
 // lockWaiters returns, by goroutine id, the stacks of the goroutines that wait for a mutex in a function of the module
 // under test and whose lock cannot be held by anyone who is merely waiting for something else: a waiter is dropped when
 // another goroutine of the same synctest bubble (of the whole process outside bubbles) is blocked somewhere below a
-// function of the module under test - it may hold the lock while it waits for virtual time, which cannot pass while
+// function of the package that asked for the lock - it may hold the lock while it waits for virtual time, which cannot pass while
 // the waiter is not durably blocked: an artefact of the bubble, not a lock that is never released.
 func lockWaiters() map[string]string {
 	buf := make([]byte, 16<<20)
 	buf = buf[:runtime.Stack(buf, true)]
 	out := map[string]string{}
-	bubbleOf := map[string]string{}
-	possibleHolder := map[string]bool{} // by bubble ("" = outside)
+	scope := map[string]string{} // waiter -> bubble|package of the function that asked for the lock
+	type blocked struct {
+		bubble string
+		lines  []string
+	}
+	var others []blocked
 	for _, g := range strings.Split(string(buf), "\n\n") {
 		head, _, _ := strings.Cut(g, "\n")
 		bubble := ""
@@ -412,7 +416,7 @@ func lockWaiters() map[string]string {
 				// the first frame outside sync / runtime: the function that asked for the lock
 				if strings.HasPrefix(l, "github.com/prometheus/alertmanager/") {
 					out[m[1]] = firstLines(g, 14)
-					bubbleOf[m[1]] = bubble
+					scope[m[1]] = bubble + "|" + pkgOfFrame(l)
 				}
 				break
 			}
@@ -421,19 +425,38 @@ func lockWaiters() map[string]string {
 		if strings.Contains(head, "[running") || strings.Contains(head, "[runnable") {
 			continue
 		}
-		for _, l := range lines {
-			if strings.HasPrefix(l, "github.com/prometheus/alertmanager/") {
-				possibleHolder[bubble] = true
+		others = append(others, blocked{bubble, lines})
+	}
+	for id, sc := range scope {
+		bubble, pkg, _ := strings.Cut(sc, "|")
+		for _, o := range others {
+			if o.bubble != bubble {
+				continue
+			}
+			held := false
+			for _, l := range o.lines {
+				// (mutexes are unexported fields: whoever holds this one is inside a function of the same package)
+				if strings.HasPrefix(l, pkg+".") {
+					held = true
+					break
+				}
+			}
+			if held {
+				delete(out, id)
 				break
 			}
 		}
 	}
-	for id := range out {
-		if possibleHolder[bubbleOf[id]] {
-			delete(out, id)
-		}
-	}
 	return out
+}
+
+// pkgOfFrame: "github.com/prometheus/alertmanager/api/v2.(*API).receiverLabelsMap(...)" -> ".../api/v2"
+func pkgOfFrame(l string) string {
+	slash := strings.LastIndex(l, "/")
+	if dot := strings.Index(l[slash+1:], "."); dot >= 0 {
+		return l[:slash+1+dot]
+	}
+	return l
 }
 
 func firstLines(s string, n int) string {
